@@ -65,6 +65,19 @@ KERNELS = [
     dict(name='oomGoesOn', file='torf/_generate.py', func='Reader._handle_oom',
          pick=('if-test-guarding', 'self._piece_queue.maxsize = new_maxsize'),
          params=[('new_maxsize', 'Int'), ('old_maxsize', 'Int')], ret='Bool'),
+    # --- the piece_size setter and the clamping done by the piece_size_min / piece_size_max setters (C09)
+    dict(name='pieceSizeOutOfRange', file='torf/_torrent.py', func='Torrent.piece_size@setter',
+         pick=('if-test-guarding', 'min=self.piece_size_min'),
+         atoms={'self.piece_size_min': 'pmin', 'self.piece_size_max': 'pmax'},
+         params=[('pmin', 'Int'), ('piece_length', 'Int'), ('pmax', 'Int')], ret='Bool'),
+    dict(name='clampToMin', file='torf/_torrent.py', func='Torrent.piece_size_min@setter',
+         pick=('attr-assign', 'self.piece_size'),
+         atoms={'self.piece_size_min': 'pmin', 'self.piece_size': 'piece_size'},
+         params=[('pmin', 'Int'), ('piece_size', 'Int')], ret='Int'),
+    dict(name='clampToMax', file='torf/_torrent.py', func='Torrent.piece_size_max@setter',
+         pick=('attr-assign', 'self.piece_size'),
+         atoms={'self.piece_size_max': 'pmax', 'self.piece_size': 'piece_size'},
+         params=[('pmax', 'Int'), ('piece_size', 'Int')], ret='Int'),
     dict(name='forceGenerate', file='torf/_generate.py', func='GenerateCallback._force_callback', pick=('return',),
          atoms={'exceptions': 'has_exc'},
          params=[('has_exc', 'Bool'), ('pieces_done', 'Int'), ('pieces_total', 'Int')], ret='Bool'),
@@ -141,8 +154,12 @@ def _find_func(tree, qual):
     node = tree
     for p in parts:
         found = None
+        setter = p.endswith('@setter')          # `name@setter`: the function decorated with @name.setter
+        p = p.split('@')[0]
         for ch in ast.walk(node) if node is tree else ast.iter_child_nodes(node):
-            if isinstance(ch, (ast.FunctionDef, ast.ClassDef)) and ch.name == p:
+            if isinstance(ch, (ast.FunctionDef, ast.ClassDef)) and ch.name == p and (
+                    not setter or any(isinstance(d, ast.Attribute) and d.attr == 'setter'
+                                      for d in getattr(ch, 'decorator_list', []))):
                 found = ch
                 break
         if found is None:
@@ -184,6 +201,13 @@ def _pick(fn, pick):
         if len(hits) != 1:
             raise CannotTranslate(f'{len(hits)} if-statements guarding {pick[1]}')
         return hits[0].test
+    if kind == 'attr-assign':
+        # the value assigned to an attribute, e.g. `self.piece_size = <value>`
+        hits = [n for n in ast.walk(fn) if isinstance(n, ast.Assign) and len(n.targets) == 1 and
+                ast.unparse(n.targets[0]) == pick[1]]
+        if len(hits) != 1:
+            raise CannotTranslate(f'{len(hits)} assignments to {pick[1]}')
+        return hits[0].value
     if kind == 'kwarg':
         hits = [k.value for n in ast.walk(fn) if isinstance(n, ast.Call) for k in n.keywords if k.arg == pick[1]]
         if not hits or len({ast.dump(h) for h in hits}) != 1:
